@@ -3,18 +3,20 @@
 
 Each patch is applied in a scratch git worktree of /repo's HEAD (never in /repo itself); the checks analyse that tree
 through VERIF_REPO.  Results: seeded/<id>/detected.json and seeded/RESULTS.md.
-usage: score_seeded.py [<seeded id> ...]
+usage: score_seeded.py [--shard i/n] [<seeded id> ...]      (shards run concurrently, each in its own worktree)
+       score_seeded.py --summary                            (assemble seeded/RESULTS.md from the detected.json files)
 """
 import json, os, re, shutil, subprocess, sys
 
 VERIF = '/verif'
 WT = '/tmp/score/wt'
 RELATED = {
-    'C01': ['C01', 'C05', 'C04', 'C18'], 'C03': ['C03', 'C04'], 'C04': ['C04'], 'C05': ['C05', 'C01'], 'C11': ['C11'],
-    'C12': ['C12'], 'C13': ['C13'], 'C14': ['C14', 'C03'], 'C15': ['C15', 'C12'], 'C16': ['C16'], 'C17': ['C17'],
+    'C01': ['C01', 'C05', 'C04', 'C18', 'C03'], 'C03': ['C03', 'C04'], 'C04': ['C04', 'C05', 'C20'], 'C05': ['C05', 'C01', 'C13', 'C12', 'C04'], 'C11': ['C11'],
+    'C12': ['C12'], 'C13': ['C13'], 'C14': ['C14', 'C03'], 'C15': ['C15', 'C12'], 'C16': ['C16'], 'C17': ['C17', 'C20', 'C15'],
     'C18': ['C18', 'C01', 'C20'], 'C19': ['C19'], 'C20': ['C20', 'C18'],
 }
 THOROUGH = {'C17a-3'}
+import re
 
 
 def sh(cmd, cwd=None, env=None):
@@ -22,10 +24,58 @@ def sh(cmd, cwd=None, env=None):
     return r.returncode, r.stdout
 
 
+def summary():
+    rows = []
+    sd = os.path.join(VERIF, 'seeded')
+    ids = sorted(x for x in os.listdir(sd) if x != 'benign' and os.path.isdir(os.path.join(sd, x))) + \
+        ['benign/' + x for x in sorted(os.listdir(os.path.join(sd, 'benign')))]
+    for sid in ids:
+        d = os.path.join(sd, sid)
+        if not os.path.exists(os.path.join(d, 'detected.json')):
+            rows.append((sid, '?', 'not scored'))
+            continue
+        meta = json.load(open(os.path.join(d, 'meta.json')))
+        det = json.load(open(os.path.join(d, 'detected.json')))
+        prop = meta.get('property') or meta.get('breaks_property')
+        if not det.get('applies'):
+            rows.append((sid, prop, 'patch does not apply to the repaired tree'))
+            continue
+        caught = []
+        for c, r in det['checks'].items():
+            if r['violations']:
+                rules = sorted({m.group(1) for f in r['first'] for m in [re.match(r'\[([^\]]+)\]', f)] if m})
+                caught.append('%s (%s)' % (c, ', '.join(rules) or '%d violations' % r['violations']))
+        if meta.get('kind') == 'benign':
+            rows.append((sid, 'benign', ('FALSE ALARM: ' + ', '.join(caught)) if caught else 'silent (as required)'))
+        else:
+            rows.append((sid, prop, ', '.join(caught) if caught else 'NOT DETECTED'))
+    with open(os.path.join(sd, 'RESULTS.md'), 'w') as f:
+        f.write('# Seeded changes vs. checks (written by tools/score_seeded.py)\n\n| seeded | property | reported by (rules) |\n|---|---|---|\n')
+        for r in rows:
+            f.write('| %s | %s | %s |\n' % r)
+    nb = [r for r in rows if r[1] != 'benign']
+    print('%d seeded: %d detected, %d not detected, %d unscored; benign false alarms: %d' % (
+        len(nb), sum(1 for r in nb if r[2] not in ('NOT DETECTED', 'not scored') and not r[2].startswith('patch')),
+        sum(1 for r in nb if r[2] == 'NOT DETECTED'), sum(1 for r in rows if r[2] == 'not scored'),
+        sum(1 for r in rows if r[2].startswith('FALSE'))))
+
+
 def main():
+    global WT
+    if '--summary' in sys.argv:
+        return summary()
+    shard = None
+    if '--shard' in sys.argv:
+        i = sys.argv.index('--shard')
+        shard = tuple(int(x) for x in sys.argv[i + 1].split('/'))
+        del sys.argv[i:i + 2]
+        WT = '/tmp/score/wt-%d' % shard[0]
     ids = sys.argv[1:] or (sorted(x for x in os.listdir(os.path.join(VERIF, 'seeded')) if x != 'benign') +
                            ['benign/' + x for x in sorted(os.listdir(os.path.join(VERIF, 'seeded', 'benign')))])
     ids = [i for i in ids if os.path.isdir(os.path.join(VERIF, 'seeded', i))]
+    if shard:
+        ids = ids[shard[0]::shard[1]]
+    tag = '-%d' % shard[0] if shard else ''
     ALL = [c['property_id'] for c in json.load(open(os.path.join(VERIF, 'MANIFEST.json')))['checks']]
     os.makedirs('/tmp/score', exist_ok=True)
     sh('git -C /repo worktree prune')
@@ -34,7 +84,7 @@ def main():
         shutil.rmtree(WT, ignore_errors=True)
     rc, o = sh('git -C /repo worktree add -f --detach %s HEAD' % WT)
     assert rc == 0, o
-    env = dict(os.environ, VERIF_REPO=WT, VERIF_CACHE='/tmp/score/cache', VERIF_SCRATCH='/tmp/score/scratch')
+    env = dict(os.environ, VERIF_REPO=WT, VERIF_CACHE='/tmp/score/cache' + tag, VERIF_SCRATCH='/tmp/score/scratch' + tag)
     rows = []
     try:
         for sid in ids:
@@ -50,7 +100,7 @@ def main():
             res = {}
             tier = 'thorough' if sid in THOROUGH else 'quick'
             for cid in (ALL if meta.get('kind') == 'benign' else RELATED.get(prop, [prop])):
-                rc, o = sh('python3 %s/verif check %s --tier %s' % (VERIF, cid, tier), cwd=VERIF, env=dict(env, VERIF_EVIDENCE='/tmp/score/evidence'))
+                rc, o = sh('python3 %s/verif check %s --tier %s' % (VERIF, cid, tier), cwd=VERIF, env=dict(env, VERIF_EVIDENCE='/tmp/score/evidence' + tag))
                 viol = [l for l in o.splitlines() if l.startswith('VIOLATION')]
                 first = [l.strip() for l in o.splitlines() if l.startswith('  [')][:2]
                 res[cid] = dict(exit=rc, violations=len(viol), first=[f[:300] for f in first])
@@ -63,12 +113,11 @@ def main():
             print(sid, prop, caught, flush=True)
     finally:
         sh('git -C /repo worktree remove --force %s' % WT)
-        shutil.rmtree('/tmp/score/cache', ignore_errors=True)
-        shutil.rmtree('/tmp/score/scratch', ignore_errors=True)
-    with open(os.path.join(VERIF, 'seeded', 'RESULTS.md'), 'w') as f:
-        f.write('# Seeded changes vs. checks (written by tools/score_seeded.py)\n\n| seeded | property | reported by |\n|---|---|---|\n')
-        for (sid, prop, caught, _r) in rows:
-            f.write('| %s | %s | %s |\n' % (sid, prop, caught))
+        shutil.rmtree('/tmp/score/cache' + tag, ignore_errors=True)
+        shutil.rmtree('/tmp/score/scratch' + tag, ignore_errors=True)
+        shutil.rmtree('/tmp/score/evidence' + tag, ignore_errors=True)
+    if not shard:
+        summary()
 
 
 if __name__ == '__main__':
